@@ -16,6 +16,34 @@ CHECKS = {
          "the menu is replayed into verif.data.Data and compared cell by cell. Exhaustive in the thorough tier (2^16 patterns).",
     technique="TLA+ spec (Dataset.tla) model-checked with TLC; TLC-generated datasets and expected results replayed into verif.data.Data",
     ref="6/C01"),
+ "C02": dict(
+    text="Dataset.tla defines the value of an input at (time, lead, location) as what that file stores at the FIRST position with "
+         "those coordinates; TLC enumerates inputs listing each dimension in every order (all ordered sub-lists of a 3-element pool, "
+         "extra entries, repeated entries) and emits expected verified dimensions and request results; the materialiser writes text "
+         "files with shuffled rows/columns and NetCDF files; every request is replayed into verif.data.Data. Coordinate-encoding "
+         "cell values make any wrong index visible.",
+    technique="TLA+ spec (Dataset.tla At/Common*) model-checked with TLC; generated datasets replayed into verif.input + verif.data",
+    ref="6/C02"),
+ "C03": dict(
+    text="Dataset.tla defines the verified times/leads/locations as set comprehensions over the documented predicates of the nine "
+         "subsetting options (+ obsrange masking); TLC enumerates every set of up to 2 (quick) / 3 (thorough) options, each with values "
+         "selecting everything / a strict subset / range ends equal to a coordinate / nothing, on two inputs with different order and "
+         "coverage (+ climatology); dims, error-exit/NaN outcome of empty selections and all request results are compared with Data(...).",
+    technique="TLA+ spec (Dataset.tla SelTime/SelLead/SelLoc) model-checked with TLC; generated option sets replayed into verif.data.Data",
+    ref="6/C03"),
+ "C11": dict(
+    text="Calendar.tla is an integer proleptic-Gregorian calendar; TLC checks bucket-containment, monotonicity and inverse-conversion "
+         "lemmas on every day 1900-2100 (thorough) and emits each day's facts, replayed into verif.util conversions and all time-like "
+         "axes; Dataset.tla SliceKey/SliceOf with the Partition invariant gives the slices of datasets whose initialisation times "
+         "straddle year/month/week/leap-day boundaries, replayed through Data.get_axis_values and get_scores for 15 axes.",
+    technique="TLA+ specs (Calendar.tla, Dataset.tla) model-checked with TLC; per-day facts and per-slice cases replayed into verif.util/axis/data",
+    ref="6/C11"),
+ "C14": dict(
+    text="Dataset.tla Adj subtracts/divides the climatology forecast at the same coordinates (exact rationals; zero divisors give "
+         "non-finite, hence dropped, cases); TLC enumerates climatologies with their own coverage, order, missing cells and zeros, "
+         "checks the shift-equivalence theorem (-c X versus X as extra input) and emits expected results replayed into Data(clim=...).",
+    technique="TLA+ spec (Dataset.tla Adj) model-checked with TLC; generated datasets replayed into verif.data.Data with clim",
+    ref="6/C14"),
 }
 REASON_WIP = "check not built yet (work in progress; the TLA+ technique applies, see DESIGN.md section 6)"
 NOT_APPLICABLE = {}
